@@ -9,23 +9,8 @@ global size_of usize == 8;
 //@@ PDFERROR
 //@@ DEVIATIONS
 
-// ---- specification: UTF-16 (Unicode Standard 3.9, D91; same text as units/cmap) ------------------------------------------
-pub open spec fn is_high(u: int) -> bool { 0xD800 <= u <= 0xDBFF }
-pub open spec fn is_low(u: int) -> bool { 0xDC00 <= u <= 0xDFFF }
-// big-endian byte pairs -> code units (an odd trailing byte is not a code unit)
-pub open spec fn units_of(b: Seq<u8>) -> Seq<u16> decreases b.len() {
-    if b.len() < 2 { Seq::empty() } else { seq![(b[0] as int * 256 + b[1] as int) as u16] + units_of(b.skip(2)) }
-}
-// strict: None as soon as one unit is ill-formed (lone low, high not followed by a low, high at the end)
-pub open spec fn text_of(u: Seq<u16>) -> Option<Seq<char>> decreases u.len() {
-    if u.len() == 0 { Some(Seq::empty()) }
-    else if !is_high(u[0] as int) && !is_low(u[0] as int) {
-        match text_of(u.skip(1)) { Some(t) => Some(seq![(u[0] as int) as char] + t), None => None }
-    } else if is_high(u[0] as int) && u.len() >= 2 && is_low(u[1] as int) {
-        match text_of(u.skip(2)) { Some(t) => Some(seq![(0x10000 + (u[0] as int - 0xD800) * 0x400 + (u[1] as int - 0xDC00)) as char] + t), None => None }
-    } else { None }
-}
-pub open spec fn utf16be_text(b: Seq<u8>) -> Option<Seq<char>> { text_of(units_of(b)) }
+// ---- specification: UTF-16 (Unicode Standard 3.9, D91): is_high, is_low, units_of, text_of, utf16be_text -- shared with units/cmap ----
+//@@ INCLUDE utf16/utf16_spec.rs
 // lossy: U+FFFD REPLACEMENT CHARACTER for every ill-formed unit, decoding resumes at the next unit
 pub open spec fn lossy_of(u: Seq<u16>) -> Seq<char> decreases u.len() {
     if u.len() == 0 { Seq::empty() }
@@ -113,14 +98,8 @@ impl SmallString {
 }
 pub mod font {
     use super::*;
-    // pdf/src/font.rs:541  `utf16be_to_char(data).map(|r| r.map_err(|_| PdfError::Utf16Decode)).collect()`:
-    // the items are checked on the real chain by the Kani harness `utf16be_to_char_is_d91` (every byte string of <= 7 bytes, item by
-    // item); `Iterator::map` + `collect::<Result<SmallString, _>>()` (all Ok: the chars in order; else the FIRST Err) is trusted std
-    #[verifier::external_body]
-    pub fn utf16be_to_string(data: &[u8]) -> (r: Result<SmallString>)
-        ensures utf16be_text(data@) matches Some(t) ==> (r matches Ok(s) && s@ == t),
-                utf16be_text(data@) is None ==> r == Err::<SmallString, PdfError>(PdfError::Utf16Decode),
-    { unimplemented!() }
+    // `utf16be_to_string`: the stub text is shared with units/cmap (same contract, one file)
+    //@@ INCLUDE utf16/utf16_stub.rs
     // pdf/src/font.rs:535  `utf16be_to_char(data).map(|r| r.unwrap_or(REPLACEMENT_CHARACTER)).collect()`: items by Kani as above,
     // `map` + `collect::<String>()` trusted std
     #[verifier::external_body]
